@@ -135,6 +135,10 @@ def gen_net(rng, n_in=None, n_gates=None, n_ff=None, n_out=None, style=None, fea
     feats = set(feats)
     net = {'style': style, 'inputs': [f'i{i}' for i in range(n_in)], 'ffs': [], 'gates': [], 'outputs': [], 'wiring': {}}
     sigs = list(net['inputs'])
+    if 'floating' in feats:
+        # floating nets: named signals without driver (a parser creates such forks for undriven wires); they read constant 0
+        net['floating'] = [f'fl{i}' for i in range(rng.randint(1, 2))]
+        sigs += net['floating']
     for i in range(n_ff):
         latch = rng.random() < 0.3
         kind = rng.choice(LATCH_KINDS if latch else DFF_KINDS)
@@ -314,7 +318,7 @@ def build(net):
         b.line_sig[l.index] = sig
         return l
 
-    allsigs = list(net['inputs'])
+    allsigs = list(net['inputs']) + list(net.get('floating', []))
     for ff in net['ffs']:
         allsigs += [s for s in (ff['q'], ff['qn']) if s]
     allsigs += [g['out'] for g in net['gates'] if g['out']]
@@ -344,12 +348,13 @@ def build(net):
                 for (n, p) in rds:
                     mkline(f, (n, p), sig)
             continue
-        if mode == 'direct' and len(rds) == 1:
+        if mode == 'direct' and len(rds) == 1 and sig in drivers:
             mkline(drivers[sig], rds[0], sig)
             continue
         f = Node(c, sig)
         forks[sig] = f
-        mkline(drivers[sig], f, sig)
+        if sig in drivers:
+            mkline(drivers[sig], f, sig)
         if mode == 'chain' and rds:
             f2 = Node(c, sig + '~c')
             mkline(f, f2, sig)
@@ -399,6 +404,8 @@ def eval_net(net, assign, mask, force=None):
 
     for s in net['inputs']:
         put(s, assign[s] & mask)
+    for s in net.get('floating', []):
+        put(s, 0)
     for ff in net['ffs']:
         q = assign[ff['name']] & mask
         if ff['q']:
@@ -432,7 +439,7 @@ def observed(net, val):
 
 def net_text(net):
     """bench-like rendering for evidence samples / messages"""
-    parts = [f"style={net['style']}", 'input(' + ','.join(net['inputs']) + ')',
+    parts = [f"style={net['style']}"] + (['floating(' + ','.join(net['floating']) + ')'] if net.get('floating') else []) + ['input(' + ','.join(net['inputs']) + ')',
              'output(' + ','.join(f"{o['name']}={o['sig']}" if o['name'] != o['sig'] else o['sig'] for o in net['outputs']) + ')']
     for ff in net['ffs']:
         parts.append(f"{ff['q'] or '-'}/{ff['qn'] or '-'}={ff['kind']}({ff['d']}{',' + ff['ck'] if ff.get('ck') else ''})")
@@ -447,7 +454,7 @@ def net_text(net):
 
 def structure_stats(net):
     """(#levels, #fanout stems) for the non-triviality rules"""
-    lvl = {s: 0 for s in net['inputs']}
+    lvl = {s: 0 for s in net['inputs'] + net.get('floating', [])}
     for ff in net['ffs']:
         for s in (ff['q'], ff['qn']):
             if s:
@@ -486,6 +493,8 @@ def eval_net_mv(net, assign, nlanes, four=False, force=None):
 
     for s in net['inputs']:
         put(s, list(assign[s]))
+    for s in net.get('floating', []):
+        put(s, [R.ZERO] * nlanes)
     for ff in net['ffs']:
         q = list(assign[ff['name']])
         if ff['q']:
@@ -536,6 +545,8 @@ def eval_lines(b, net, assign, nlanes, mode='bool', strip_forks=False, force=Non
             v = (v & mask) if mode == 'bool' else list(v)
             if d[2]:
                 v = inv(v)
+        elif d[0] == 'zero':
+            v = zero
         elif d[0] == 'alias':
             v = val[d[1]]
         else:
